@@ -100,6 +100,10 @@ DEFAULTS = {
     "TrueLike": TrueLike, "(Decimal1,)": lambda: (Decimal("1"),), "(True,1,1.0)": lambda: (True, 1, 1.0),
     "frozenset({IE.ONE})": lambda: frozenset({IE.ONE}), "bytearray-like": lambda: b"\x00",
     "'x'": lambda: "x", "-1": lambda: -1, "2**70": lambda: 2 ** 70, "(nan,)": lambda: (float("nan"),),
+    # ints above the int-to-str digit limit have no decimal text: they cannot be rendered as literals
+    "10**5000": lambda: 10 ** 5000, "(1,10**5000)": lambda: (1, -10 ** 5000),
+    # dict defaults whose keys have no literal form
+    "{IE.ONE:1}": lambda: {IE.ONE: 1}, "{(1,Decimal1):2}": lambda: {(1, Decimal("1")): (True, 1)},
     "'quote\"\\'\\n'": lambda: "quote\"'\n{}",
     # plain literal containers (rendered inline by the code generator) and their look-alikes
     "(1,)": lambda: (1,), "((1,2),)": lambda: ((1, 2),), "(1,0)": lambda: (1, 0), "(True,False)": lambda: (True, False),
